@@ -218,8 +218,6 @@ class CIF:
         self._authors: list[Person] = []
         self._reducers: list[str] = []
 
-        # Should be long enough to never run out of IDs.
-        self._id_generator = (str(i) for i in range(1, 1_000_000_000))
 
     @property
     def name(self) -> str:
@@ -428,6 +426,11 @@ class CIF:
         contact = [author for author in self._authors if author.corresponding]
         regular = [author for author in self._authors if not author.corresponding]
 
+        # Should be long enough to never run out of IDs.
+        # Created here so that saving does not modify the builder
+        # and repeated saves produce the same file.
+        id_generator = (str(i) for i in range(1, 1_000_000_000))
+
         results = []
         roles = {}
         for authors, category in zip(
@@ -435,7 +438,7 @@ class CIF:
         ):
             if not authors:
                 continue
-            data, rols = _serialize_authors(authors, category, self._id_generator)
+            data, rols = _serialize_authors(authors, category, id_generator)
             results.append(data)
             roles.update(rols)
         if roles:
